@@ -1,5 +1,5 @@
 //! C12 (in-process part): for sampled (prepared state, operation) pairs, enumerate EVERY position
-//! k of the file-system calls the operation makes × errno ∈ {EIO, EACCES, ENOSPC}; the call must
+//! k of the file-system calls the operation makes × errno ∈ {EIO, EACCES, ENOSPC, ENOTDIR}; the call must
 //! return an error or leave exactly the directory the fault-free call produces.
 
 use super::exec::{FAULT_MODE, LoggedCb, Observed, World};
@@ -21,7 +21,7 @@ use std::path::{Path, PathBuf};
 use std::sync::atomic::Ordering;
 use std::time::Instant;
 
-pub const ERRNOS: [(i32, &str); 3] = [(libc::EIO, "EIO"), (libc::EACCES, "EACCES"), (libc::ENOSPC, "ENOSPC")];
+pub const ERRNOS: [(i32, &str); 4] = [(libc::EIO, "EIO"), (libc::EACCES, "EACCES"), (libc::ENOSPC, "ENOSPC"), (libc::ENOTDIR, "ENOTDIR")];
 
 #[derive(Clone, Debug, Serialize, Deserialize)]
 pub struct FaultReplay {
@@ -822,7 +822,7 @@ pub fn run_check(tier: &str) -> i32 {
     cells.extend(e2.cells.iter().cloned());
     ev.cov("evaluations", json!(sum.executions + e2.executions));
     ev.cov("distinct_nontrivial", json!(cells.len()));
-    ev.cov("rule", json!("for each sampled (prepared state, operation) pair the fault-free execution is counted under the shim (N matching libc calls beneath the world root), then EVERY k in 1..N x errno in {EIO, EACCES, ENOSPC} is executed from the restored state; distinct non-trivial = distinct (operation kind, pre-state shape, faulted libc call, errno) cells in which the fault actually fired. Phase outputs: every fault position of the build/detect output writers in a real buildpack process."));
+    ev.cov("rule", json!("for each sampled (prepared state, operation) pair the fault-free execution is counted under the shim (N matching libc calls beneath the world root), then EVERY k in 1..N x errno in {EIO, EACCES, ENOSPC, ENOTDIR} is executed from the restored state; distinct non-trivial = distinct (operation kind, pre-state shape, faulted libc call, errno) cells in which the fault actually fired. Phase outputs: every fault position of the build/detect output writers in a real buildpack process."));
     ev.cov("samples", json!(sum.samples.iter().cloned().chain(e2.samples.iter().cloned()).collect::<Vec<_>>()));
     ev.cov("exhaustive_per_pair", json!(true));
     ev.cov("pairs", json!(sum.pairs));
